@@ -115,6 +115,15 @@ func genGroupCase(t *rapid.T, withID bool) groupCase {
 		perm = append(append([]string(nil), wideKeys...), rest[:nk]...)
 		nk = len(perm)
 	}
+	// now and then the frame has been narrowed by a Filter on its own columns before (what it then holds is observed)
+	if rapid.IntRange(0, 5).Draw(t, "filteredbefore") == 0 && len(in.Cols) > 0 {
+		cl := hx.GenLeaf(t, in, hx.ClauseOpt{})
+		if f := d.QF.Filter(cl.Build(hx.KindMap(in))); f.Err == nil {
+			d.QF = f
+			d.Route = append(d.Route, "filtered by "+cl.String())
+			in = d.Input(t)
+		}
+	}
 	// now and then the frame is already ordered on a prefix of the keys (an input grouping code likes to special-case)
 	if nk > 0 && rapid.IntRange(0, 5).Draw(t, "presortedkeys") == 0 {
 		np := rapid.IntRange(1, nk).Draw(t, "sortprefix")
@@ -407,6 +416,10 @@ func TestC04(t *testing.T) {
 			r2 := res.GroupBy(groupby.Columns(sub...), groupby.Null(g.groupNull)).Aggregate(qframe.Aggregation{Fn: "count", Column: g.keys[len(g.keys)-1], As: "zz-n"})
 			if r2.Err != nil || r2.Len() != len(wantGroups) {
 				t.Fatalf("the Aggregate result grouped again by %q: %d groups (Err %v), its key classes number %d\n%s\nresult %s", sub, r2.Len(), r2.Err, len(wantGroups), desc(), got.String())
+			}
+			r3 := res.GroupBy(groupby.Columns(g.keys...), groupby.Null(!g.groupNull)).Aggregate()
+			if want3 := len(hx.Partition(gd, g.keys, !g.groupNull)); r3.Err != nil || r3.Len() != want3 {
+				t.Fatalf("the Aggregate result grouped again by its own keys with Null(%v): %d groups (Err %v), its key classes number %d\n%s\nresult %s", !g.groupNull, r3.Len(), r3.Err, want3, desc(), got.String())
 			}
 			if v, err := r2.IntView("zz-n"); err == nil {
 				total := 0
